@@ -129,6 +129,20 @@ theorem sd2_reopen_info_instances :
         parseRsrc (rsrc c) = .ok { size := c.size, rate := c.rate, ch := c.ch } ∧ (rsrc c).length = total c) := by
   decide +kernel
 
+/-- a data file of any length re-opens: one that is too short for the 12-byte probe of guess_file_type (fewer than 12
+    bytes of audio, N = 0 included) goes to the resource fork like every other SD2 file -/
+theorem sd2_short_data_reaches_fork (data : List Byte) (h : data.length < 12) : reachesFork data = some true := by
+  simp [reachesFork, h]
+
+theorem sd2_short_data_reopens (data fork : List Byte) (h : data.length < 12) : reopenFile data fork = reopen fork data.length := by
+  simp [reopenFile, reopenFileWith, sd2_short_data_reaches_fork data h]
+
+/-- the rule before the repair (KF-C04-SD2-SHORT-DATA): two stereo 16-bit frames were written, the closed file was refused -/
+theorem sd2_short_data_old_rule :
+    reopenFileOld [0x11, 0, 0x11, 1, 0x11, 2, 0x11, 3] (rsrc { size := 2, rate := 44100, ch := 2, name := asc "s0.sd2" }) = .err ∧
+    reopenFile [0x11, 0, 0x11, 1, 0x11, 2, 0x11, 3] (rsrc { size := 2, rate := 44100, ch := 2, name := asc "s0.sd2" })
+      = .ok { ch := 2, fmt := 0x160002, sr := 44100, frames := 2 } := by decide +kernel
+
 /-! ## the fork is a function of (sample size, rate, channels, file name) -/
 
 theorem gap_congr (f f' : Nat → Byte) (start n bound : Nat) (h : ∀ i, i < bound → f i = f' i) (hb : start + n ≤ bound) :
